@@ -1,5 +1,6 @@
 import FR.Proofs.System
 import FR.Proofs.Parser
+import FR.Proofs.Script
 namespace FR
 open M
 set_option linter.unusedSimpArgs false
@@ -403,9 +404,80 @@ theorem runWith_mode_irrel (sp1 sp2) (m1 m2 : Mode) (c : Nat) (sig : Sig) (raw :
   funext s
   exact runWith_congr_state sp1 sp2 m1 m2 c sig raw fs s (fun args cis s' _ => by rw [h])
 
+/-! ### scripts do not look at the front-end: a script cannot call a blocking pop (`no_script`) -/
+
+theorem blocking_noScript : ∀ n ∈ blockingNames, n ∈ forbiddenInScripts := by decide
+
+/-- `_run_command(…, from_script=True)` of a command of the table does not look at the front-end: the blocking pops
+are flagged `no_script`, the gate refuses them before their body runs -/
+theorem runWith_fromScript_mode_irrel (inner : Inner) (m1 m2 : Mode) (c : Nat) (sig : Sig) (raw : List Bytes)
+    (hmem : sig ∈ SigTable.sigs) :
+    runWith (special inner) m1 c sig raw true = runWith (special inner) m2 c sig raw true := by
+  by_cases hn : sig.noScript = true
+  · funext s
+    cases hr : s.refuses c sig with
+    | true => rw [runWith_refused _ m1 c sig raw true hr, runWith_refused _ m2 c sig raw true hr]
+    | false =>
+      have hreg : Cmd.regular sig.name = none := by
+        have := noScript_not_regular sig hmem hn
+        cases h : Cmd.regular sig.name with
+        | none => rfl
+        | some b => rw [h] at this; cases this
+      rw [runWith_noScript_run _ m1 c sig raw s hn hreg hr, runWith_noScript_run _ m2 c sig raw s hn hreg hr]
+  · have hb : sig.name ∉ blockingNames :=
+      fun hb => hn ((sigs_noScript_iff sig hmem).2 (blocking_noScript _ hb))
+    exact runWith_mode_irrel _ _ m1 m2 c sig raw true (fun args cis => special_mode_irrel _ m1 m2 c sig.name args cis hb)
+
+theorem SigTable.mem_of_find {n : String} {sig : Sig} (h : SigTable.find n = some sig) : sig ∈ SigTable.sigs :=
+  List.mem_of_find?_eq_some h
+
+theorem runFromScript_mode_irrel (inner : Inner) (m1 m2 : Mode) (c : Nat) (op : LuaVal) (args : List LuaVal) :
+    runFromScript (special inner) m1 c op args = runFromScript (special inner) m2 c op args := by
+  unfold runFromScript
+  cases op with
+  | str nameB =>
+    dsimp only
+    cases hc : commandName nameB with
+    | none => rfl
+    | some n =>
+      dsimp only
+      cases hu : n.startsWith "_" with
+      | true => rfl
+      | false =>
+        simp only [Bool.false_eq_true, if_false]
+        cases hf : SigTable.find n with
+        | none => rfl
+        | some sig => simp only [runWith_fromScript_mode_irrel inner m1 m2 c sig _ (SigTable.mem_of_find hf)]
+  | _ => rfl
+
+theorem runTrace_mode_irrel (inner : Inner) (m1 m2 : Mode) (c : Nat) (sha : Bytes) (fuel : Nat) :
+    runTrace (special inner) m1 c sha fuel = runTrace (special inner) m2 c sha fuel := by
+  induction fuel with
+  | zero => unfold runTrace; rfl
+  | succ fuel ih =>
+    unfold runTrace
+    simp only [runFromScript_mode_irrel inner m1 m2 c, ih]
+
+theorem scriptBody_mode_irrel (inner : Inner) (m1 m2 : Mode) (c : Nat) (name : String) (args : List Arg) :
+    scriptBody (special inner) m1 c name args = scriptBody (special inner) m2 c name args := by
+  unfold scriptBody evalBody
+  simp only [runTrace_mode_irrel inner m1 m2 c]
+
+/-- **a script command does not look at the front-end** (issued directly or run by EXEC) -/
+theorem runScriptCmd_mode_irrel (m1 m2 : Mode) (c : Nat) (sig : Sig) (raw : List Bytes) (fs : Bool) :
+    runScriptCmd m1 c sig raw fs = runScriptCmd m2 c sig raw fs := by
+  unfold runScriptCmd
+  simp only [scriptBody_mode_irrel _ m1 m2 c]
+
+/-- the commands EXEC runs: a queued script command is run by the direct script runner, which does not look at the
+front-end either -/
 theorem runInner_mode_irrel (m1 m2 : Mode) (c : Nat) (sig : Sig) (raw : List Bytes)
-    (h : sig.name ∉ blockingNames) : runInner m1 c sig raw = runInner m2 c sig raw :=
-  runWith_mode_irrel _ _ m1 m2 c sig raw false (fun args cis => special_mode_irrel _ m1 m2 c sig.name args cis h)
+    (h : sig.name ∉ blockingNames) : runInner m1 c sig raw = runInner m2 c sig raw := by
+  cases hs : scriptNames.contains sig.name with
+  | true => rw [runInner_script m1 c sig raw hs, runInner_script m2 c sig raw hs, runScriptCmd_mode_irrel m1 m2]
+  | false =>
+    rw [runInner_not_script m1 c sig raw hs, runInner_not_script m2 c sig raw hs]
+    exact runWith_mode_irrel _ _ m1 m2 c sig raw false (fun args cis => special_mode_irrel _ m1 m2 c sig.name args cis h)
 
 theorem runCommand_not_script (mode : Mode) (c : Nat) (sig : Sig) (raw : List Bytes) (fs : Bool)
     (hs : sig.name ∉ scriptNames) :
@@ -414,13 +486,22 @@ theorem runCommand_not_script (mode : Mode) (c : Nat) (sig : Sig) (raw : List By
   unfold runCommand
   simp only [this, Bool.false_eq_true, if_false]
 
+theorem runCommand_script (mode : Mode) (c : Nat) (sig : Sig) (raw : List Bytes) (fs : Bool)
+    (hs : sig.name ∈ scriptNames) : runCommand mode c sig raw fs = runScriptCmd mode c sig raw fs := by
+  have : scriptNames.contains sig.name = true := by simpa using hs
+  unfold runCommand
+  simp only [this, if_true]
+
+/-- every command but EXEC and the blocking pops - the script commands included - is the same on every front-end -/
 theorem runCommand_mode_irrel (m1 m2 : Mode) (c : Nat) (sig : Sig) (raw : List Bytes) (fs : Bool)
-    (h : sig.name ∉ blockingNames) (hx : sig.name ≠ "exec") (hs : sig.name ∉ scriptNames) :
+    (h : sig.name ∉ blockingNames) (hx : sig.name ≠ "exec") :
     runCommand m1 c sig raw fs = runCommand m2 c sig raw fs := by
-  rw [runCommand_not_script m1 c sig raw fs hs, runCommand_not_script m2 c sig raw fs hs]
-  exact runWith_mode_irrel _ _ m1 m2 c sig raw fs (fun args cis => by
-    rw [special_inner_irrel (runInner m1 c) (runInner m2 c) m1 c sig.name args cis hx]
-    exact special_mode_irrel _ m1 m2 c sig.name args cis h)
+  by_cases hs : sig.name ∈ scriptNames
+  · rw [runCommand_script m1 c sig raw fs hs, runCommand_script m2 c sig raw fs hs, runScriptCmd_mode_irrel m1 m2]
+  · rw [runCommand_not_script m1 c sig raw fs hs, runCommand_not_script m2 c sig raw fs hs]
+    exact runWith_mode_irrel _ _ m1 m2 c sig raw fs (fun args cis => by
+      rw [special_inner_irrel (runInner m1 c) (runInner m2 c) m1 c sig.name args cis hx]
+      exact special_mode_irrel _ m1 m2 c sig.name args cis h)
 
 theorem SigTable.find_name {n : String} {sig : Sig} (h : SigTable.find n = some sig) : sig.name = n := by
   unfold SigTable.find at h
@@ -512,8 +593,7 @@ theorem dispatchBody_congr (m1 m2 : Mode) (c : Nat) (conn : Conn) (sig : Sig) (a
     · simp only [bind, StateT.bind, h]
 
 theorem processCommand_mode_irrel (m1 m2 : Mode) (c : Nat) (nameB : Bytes) (args : List Bytes)
-    (h : ∀ sig, lookupSig nameB = some sig →
-      sig.name ∉ blockingNames ∧ sig.name ≠ "exec" ∧ sig.name ∉ scriptNames) :
+    (h : ∀ sig, lookupSig nameB = some sig → sig.name ∉ blockingNames ∧ sig.name ≠ "exec") :
     processCommand m1 c (nameB :: args) = processCommand m2 c (nameB :: args) := by
   rw [processCommand_cons, processCommand_cons]
   cases hs : lookupSig nameB with
@@ -521,10 +601,10 @@ theorem processCommand_mode_irrel (m1 m2 : Mode) (c : Nat) (nameB : Bytes) (args
   | some sig =>
     simp only
     unfold dispatch
-    rw [runCommand_mode_irrel m1 m2 c sig args false (h sig hs).1 (h sig hs).2.1 (h sig hs).2.2]
+    rw [runCommand_mode_irrel m1 m2 c sig args false (h sig hs).1 (h sig hs).2]
 
 theorem processCommand_exec_mode_irrel (m1 m2 : Mode) (c : Nat) (nameB : Bytes) (args : List Bytes) (s : Sys)
-    (h : ∀ sig, lookupSig nameB = some sig → sig.name ∉ blockingNames ∧ sig.name ∉ scriptNames)
+    (h : ∀ sig, lookupSig nameB = some sig → sig.name ∉ blockingNames)
     (hq : ∀ q, (s.conn c).tx = some q → ∀ a ∈ q, a.1 ∉ blockingNames) :
     processCommand m1 c (nameB :: args) s = processCommand m2 c (nameB :: args) s := by
   rw [processCommand_cons, processCommand_cons]
@@ -539,7 +619,7 @@ theorem processCommand_exec_mode_irrel (m1 m2 : Mode) (c : Nat) (nameB : Bytes) 
       apply hq q
       rw [← htx, Sys.refresh_conn]
       rcases cleanupClosed_conn_any s c with e | e <;> rw [e] <;> rfl
-    · rw [runCommand_mode_irrel m1 m2 c sig args false (h sig hs).1 hx (h sig hs).2]
+    · rw [runCommand_mode_irrel m1 m2 c sig args false (h sig hs) hx]
 
 /-! ## the asyncio blocking primitive -/
 
@@ -1051,7 +1131,7 @@ theorem Sys.afterRegular_withTx (s : Sys) (d : Nat) (o : RunOut) (c : Nat) (q) :
 theorem runInner_regular_blind (mode : Mode) (c c' : Nat) (hne : c' ≠ c) (sig : Sig) (args : List Bytes)
     {body : Body} (hreg : Cmd.regular sig.name = some body) : BlindAt c (runInner mode c') sig args := by
   intro q s
-  unfold runInner
+  rw [runInner_regular_eq mode c' sig args hreg]
   have hconn : (s.withTx c q).conn c' = s.conn c' := Sys.withTx_conn_ne s q hne
   have hrr : (s.withTx c q).refuses c' sig = s.refuses c' sig := by unfold Sys.refuses; rw [hconn]
   cases hr : s.refuses c' sig with
